@@ -100,6 +100,10 @@ class G:
             "tap": lambda p: ["tap", g.newtag(), p],
             "map_to_any": lambda p: ["map_to_any", p],
             "timestamp": lambda p: ["timestamp", p],
+            # scheduler-based operators over the default scheduler (inline post), delay(0): sequential
+            "observe_on_d": lambda p: ["observe_on_d", p],
+            "subscribe_on_d": lambda p: ["subscribe_on_d", p],
+            "delay0": lambda p: ["delay0", p],
             "demat_mat": lambda p: ["dematerialize", ["materialize", p]],
             "demat_map": lambda p: ["dematerialize", ["map", "toMat", p]],
         }
@@ -132,6 +136,8 @@ class G:
             "distinct_until_changed": lambda p: ["distinct_until_changed", p],
             "ignore_elements": lambda p: ["ignore_elements", p],
             "map_to_any": lambda p: ["map_to_any", p],
+            "observe_on_d": lambda p: ["observe_on_d", p],
+            "subscribe_on_d": lambda p: ["subscribe_on_d", p],
             "count": lambda p: ["count", p],
         }
 
@@ -245,6 +251,7 @@ PARAM_OPS = {
     "start_with": [[["l"]], [["l", "7"]], [["l", "7", "8"]]],
     "first": [[]], "last": [[]], "distinct_until_changed": [[]], "sum": [[]], "min": [[]], "max": [[]],
     "count": [[]], "sum_and_count": [[]], "ignore_elements": [[]], "materialize": [[]], "map_to_any": [[]],
+    "observe_on_d": [[]], "subscribe_on_d": [[]], "delay0": [[]],
     "retry": [["0"], ["1"], ["2"], ["3"]],
     "retry_when": [["tt"], ["ff"], [["eq", "5"]]],
     "on_error_resume_next": [["rs_empty"], ["rs_same"], ["rs_payload"], [["rs_just", "8"]], [["rs_iter", "7", "8"]]],
@@ -282,6 +289,11 @@ def fam_creation(g, prefix):
             ["take", "3", ["repeat", "7"]], ["take", "0", ["repeat", "7"]], ["first", ["repeat", "1"]],
             ["take_while", ["lt", "2"], ["from_iter", "0", "1", "2", "3"]], ["take", "2", ["range", "0", "5"]],
             ["take", "1", ["from_iter", "1", "2", "3"]],
+            # sources over the default scheduler: the task runs inside subscribe
+            ["timer_d"], ["take", "3", ["interval_d"]], ["take", "0", ["interval_d"]], ["take", "1", ["interval_d"]], ["first", ["interval_d"]],
+            ["take_while", ["lt", "2"], ["interval_d"]], ["element_at", "3", ["interval_d"]], ["take", "2", ["observe_on_d", ["interval_d"]]],
+            ["take", "2", ["subscribe_on_d", ["interval_d"]]], ["observe_on_d", ["timer_d"]], ["subscribe_on_d", ["subscribe_on_d", ["from_iter", "1", "2"]]],
+            ["contains", "4", ["interval_d"]], ["take", "2", ["skip", "2", ["interval_d"]]], ["take_until", ["interval_d"], ["timer_d"]],
             # unusual arguments of the creation functions: negative / huge counts and starts
             ["range", "3", "-2"], ["take", "5", ["range", "3", "-2"]], ["default_if_empty", "9", ["range", "7", "-4"]], ["concat", ["range", "0", "2"], ["range", "10", "-1"], ["range", "20", "2"]],
             ["range", "-3", "5"], ["range", "-2", "1"], ["take", "2", ["range", "9223372036854775800", "5"]], ["range", "0", "1"],
@@ -726,6 +738,7 @@ def fam_teardown(g, prefix, n_random):
         add([["sub", mk(g.cold(long)), NOREACT]])
         if rep is not None:
             add([["sub", mk(["repeat", rep]), NOREACT]])
+            add([["sub", mk(["interval_d"]), NOREACT]])     # counts 0,1,2,..: every ender above is satisfied by some count
         # hot source: the subject must not hold the observer afterwards
         steps = [["subject", "a", "plain"], ["sub", mk(["ref", "a"]), NOREACT]] + [["hnext", "a", str(v)] for v in (1, 2, 3, 0, 1)]
         add(steps)
@@ -736,10 +749,11 @@ def fam_teardown(g, prefix, n_random):
             g.tag = 0
             add([["sub", ender(allops[name](g.cold(long))), NOREACT]])
         # an endless source only under operators that hand every item on (an aggregate over `repeat` never returns, by design)
-        if name in ("map", "tap", "map_to_any", "timestamp", "scan", "start_with", "default_if_empty", "demat_mat", "skip"):
+        if name in ("map", "tap", "map_to_any", "timestamp", "scan", "start_with", "default_if_empty", "demat_mat", "skip", "observe_on_d", "subscribe_on_d", "delay0"):
             for ender in (lambda q: ["take", "1", q], lambda q: ["first", q]):
                 g.tag = 0
                 add([["sub", ender(allops[name](["repeat", "1"])), NOREACT]])
+                add([["sub", ender(allops[name](["interval_d"])), NOREACT]])
     # the downstream ends while an operator is still handing over its own prefix: the source behind it must not stay subscribed
     for ender in (lambda q: ["take", "1", q], lambda q: ["take_while", "ff", q], lambda q: ["take", "2", q]):
         for pre in (lambda q: ["start_with", ["l", "7", "8"], q], lambda q: ["merge", ["from_iter", "7", "8"], q],
